@@ -128,8 +128,9 @@ def main(argv):
     ctx, err = run_check(pid, tier)
     if err is None and tier == "thorough":
         try:
-            from . import selftest
+            from . import selftest, seedreg
             selftest.run(ctx)
+            seedreg.run(ctx)
         except AnalysisError as e:
             err = "AnalysisError (self-test): %s" % e
         except Exception as e:
